@@ -49,6 +49,9 @@ SPEC = {
              "idempotent (validator= adding 40) and mutable items (typed dicts): per operation the number of item-validator "
              "calls is observed and compared with the model (copy and the fast paths validate nothing), results built from held "
              "items must hold the very same item objects as the builtin's shallow result; "
+             "the reflected positions and their neighbours (list + proxy, tuple + proxy, sum([...], []), [*a, *p, *b], o == p, p < o, o < p, "
+             "dict | proxy, {**a, **p, **b}): contents, order and result type as the builtin gives them; refused entries under keys "
+             "of every hashable kind (tuples, bytes, None, bool, float, int, strings with % characters, very long keys); "
              "plus the two override-table cases; then seeded random "
              "histories (quick <= 14 ops, thorough <= 40 ops). A case is non-trivial when it performs at least one "
              "operation; distinct = distinct (field, initial value, history)"),
